@@ -43,15 +43,23 @@ type LigSet struct {
 	Ligs  []Lig
 }
 
+// MultiEnt is one entry of a multiple (2.1) or alternate (3.1) substitution.
+type MultiEnt struct {
+	G    int
+	Outs []int
+}
+
 // GsubSub is one GSUB subtable: kind "s1" (format 1.1: coverage set + delta),
-// "s2" (format 1.2: coverage-ordered pairs; only produced by Subset) or "lig"
-// (format 4.1).
+// "s2" (format 1.2: coverage-ordered pairs; produced by Subset, refused as
+// input), "lig" (format 4.1), "mult" (format 2.1) or "alt" (format 3.1); the
+// last two are refused by Subset.
 type GsubSub struct {
 	Kind  string
 	Delta int
 	Cov   []int
 	S2    [][2]int
 	Sets  []LigSet
+	Multi []MultiEnt
 }
 
 type Kern struct{ L, R, V int }
@@ -67,6 +75,10 @@ type Desc struct {
 	Gpos   [][][]Kern
 	// not part of the abstract font (the model does not see them):
 	NoGsub, NoGpos, NoNames bool
+	// Reread: the font is written and read back before Subset is called, so
+	// that every glyph (in particular every blank one) is exactly what the
+	// library's reader produces
+	Reread bool
 }
 
 func ints(xs []int) vlib.Sx { return vlib.Ints(xs) }
@@ -126,6 +138,12 @@ func subSx(s GsubSub) vlib.Sx {
 			l = append(l, vlib.L(vlib.Int(set.First), ll))
 		}
 		return vlib.L(vlib.Atom("lig"), l)
+	case "mult", "alt":
+		l := vlib.List{}
+		for _, e := range s.Multi {
+			l = append(l, vlib.L(vlib.Int(e.G), ints(e.Outs)))
+		}
+		return vlib.L(vlib.Atom(s.Kind), l)
 	}
 	return vlib.L(vlib.Atom("other"))
 }
@@ -159,6 +177,9 @@ func (d *Desc) gposSx() vlib.Sx {
 }
 
 func (d *Desc) flagsSx() vlib.Sx {
+	if d.Reread {
+		return vlib.L(vlib.Bool(d.NoGsub), vlib.Bool(d.NoGpos), vlib.Bool(d.NoNames), vlib.Bool(true))
+	}
 	return vlib.L(vlib.Bool(d.NoGsub), vlib.Bool(d.NoGpos), vlib.Bool(d.NoNames))
 }
 
@@ -256,6 +277,31 @@ func parseSub(x vlib.Sx) (GsubSub, error) {
 				set.Ligs = append(set.Ligs, Lig{In: in, Out: out})
 			}
 			res.Sets = append(res.Sets, set)
+		}
+		return res, nil
+	case "mult", "alt":
+		if len(l) != 2 {
+			return GsubSub{}, fmt.Errorf("bad %s", k)
+		}
+		ents, err := vlib.AsList(l[1])
+		if err != nil {
+			return GsubSub{}, err
+		}
+		res := GsubSub{Kind: k}
+		for _, e := range ents {
+			el, err := vlib.AsList(e)
+			if err != nil || len(el) != 2 {
+				return GsubSub{}, fmt.Errorf("bad %s entry", k)
+			}
+			g, err := vlib.AsInt(el[0])
+			if err != nil {
+				return GsubSub{}, err
+			}
+			outs, err := vlib.AsInts(el[1])
+			if err != nil {
+				return GsubSub{}, err
+			}
+			res.Multi = append(res.Multi, MultiEnt{G: g, Outs: outs})
 		}
 		return res, nil
 	}
@@ -406,13 +452,16 @@ func ParseCase(line string) (sel string, d *Desc, glyphs []int, orc []int, err e
 		return
 	}
 	fl, err := vlib.AsList(items[11])
-	if err != nil || len(fl) != 3 {
+	if err != nil || (len(fl) != 3 && len(fl) != 4) {
 		err = fmt.Errorf("bad flags")
 		return
 	}
 	d.NoGsub, _ = vlib.AsBool(fl[0])
 	d.NoGpos, _ = vlib.AsBool(fl[1])
 	d.NoNames, _ = vlib.AsBool(fl[2])
+	if len(fl) == 4 {
+		d.Reread, _ = vlib.AsBool(fl[3])
+	}
 	return
 }
 
@@ -424,8 +473,20 @@ func ParseCase(line string) (sel string, d *Desc, glyphs []int, orc []int, err e
 // extras and all finite maps are listed in increasing order of that id.
 // n0 is the length of the glyph list given to Subset.
 func Observe(orig, sub *Desc, n0 int) string {
+	// A glyph with an outline is identified by its outline id.  Blank glyphs
+	// (outline id 0: nil *glyf.Glyph, empty charstring) all carry the same id;
+	// they are identified by the rest of the record (width, name, CID), which
+	// the generator keeps distinct among the blank glyphs of one font.
 	byOutline := map[int]int{}
+	byBlank := map[[3]int]int{}
 	for i, g := range orig.Glyphs {
+		if g.O == 0 {
+			k := [3]int{g.W, g.N, g.C}
+			if _, dup := byBlank[k]; !dup {
+				byBlank[k] = i
+			}
+			continue
+		}
 		if _, dup := byOutline[g.O]; !dup {
 			byOutline[g.O] = i
 		}
@@ -435,7 +496,14 @@ func Observe(orig, sub *Desc, n0 int) string {
 		if j < 0 || j >= n {
 			return 100000 + j
 		}
-		if i, ok := byOutline[sub.Glyphs[j].O]; ok {
+		g := sub.Glyphs[j]
+		if g.O == 0 {
+			if i, ok := byBlank[[3]int{g.W, g.N, g.C}]; ok {
+				return i
+			}
+			return 200000 + j
+		}
+		if i, ok := byOutline[g.O]; ok {
 			return i
 		}
 		return 200000 + j
@@ -556,6 +624,13 @@ func Observe(orig, sub *Desc, n0 int) string {
 				}
 				sort.SliceStable(sets, func(a, b int) bool { return sets[a].First < sets[b].First })
 				ll = append(ll, subSx(GsubSub{Kind: "lig", Sets: sets}))
+			case "mult", "alt":
+				ee := make([]MultiEnt, len(s.Multi))
+				for i, e := range s.Multi {
+					ee[i] = MultiEnt{G: old(e.G), Outs: olds(e.Outs)}
+				}
+				sort.SliceStable(ee, func(a, b int) bool { return ee[a].G < ee[b].G })
+				ll = append(ll, subSx(GsubSub{Kind: s.Kind, Multi: ee}))
 			default:
 				ll = append(ll, vlib.L(vlib.Atom("other")))
 			}
